@@ -29,6 +29,10 @@ type C03Case struct {
 	CalleeMode string          `json:"callee_mode"`
 	Chain      []ref.Directive `json:"chain,omitempty"`
 	Header     bool            `json:"header,omitempty"`
+	// Split: a namespace may be spread over several files, each with its own autoescape default.
+	// 1/2: another file of the caller's namespace with the opposite default is added before / after
+	// its file; 3/4: the same for the callee's namespace.
+	Split int `json:"split,omitempty"`
 }
 
 const (
@@ -96,6 +100,23 @@ func buildC03(c C03Case) (pc gen.ProgCase, printerNs, printerTmpl string) {
 		{Name: "a.soy", Namespace: "a", Autoescape: c.NsMode, Templates: []ref.Template{main, mid}},
 		{Name: "b.soy", Namespace: "b.lib", Autoescape: c.CalleeNs, Templates: []ref.Template{show, echo}},
 	}}
+	if c.Split > 0 {
+		opposite := func(m string) string {
+			if m == "false" {
+				return ""
+			}
+			return "false"
+		}
+		extra := ref.File{Name: "c.soy", Namespace: "a", Autoescape: opposite(c.NsMode), Templates: []ref.Template{{Name: "other", Body: []ref.Cmd{txt("other")}}}}
+		if c.Split >= 3 {
+			extra.Namespace, extra.Autoescape = "b.lib", opposite(c.CalleeNs)
+		}
+		if c.Split%2 == 1 {
+			p.Files = append([]ref.File{extra}, p.Files...)
+		} else {
+			p.Files = append(p.Files, extra)
+		}
+	}
 	return gen.ProgCase{Prog: p, Entry: "a.main", Data: map[string]ref.Value{"x": c.Value}}, printerNs, printerTmpl
 }
 
@@ -316,6 +337,7 @@ func genC03(t *rapid.T) C03Case {
 		CalleeNs:   rapid.SampledFrom(c03Modes).Draw(t, "calleeNs"),
 		CalleeMode: rapid.SampledFrom(c03Modes).Draw(t, "calleeTmpl"),
 		Header:     rapid.Bool().Draw(t, "header"),
+		Split:      rapid.SampledFrom([]int{0, 0, 0, 1, 2, 3, 4}).Draw(t, "split"),
 	}
 	n := rapid.SampledFrom([]int{0, 0, 1, 1, 2, 3}).Draw(t, "chainLen")
 	for i := 0; i < n; i++ {
